@@ -9,6 +9,9 @@ R-STRONG-SET   is_strong column == STRONG flags of hashes.conf == documented str
 R-TABLE-SHAPE  plen == strlen(prefix), first-match lookup cannot shadow, empty prefixes last.
 R-PREFERRED    crypt_preferred_method's constant == the NULL-prefix default of crypt_gensalt_rn
     == first enabled DEFAULT entry of hashes.conf, and selects a strong row.
+X-NULL-PREFIX  gensalt grid: NULL prefix == preferred prefix, path by path.
+X-TAG-LOOKUP   get_hashfn interpreted abstractly: out-of-alphabet first / second characters find no
+    row, two in-alphabet characters find the traditional-DES row.
 """
 import itertools, os, re
 from .. import common, front, ir
@@ -126,8 +129,62 @@ def run(chk, tier):
     m, info = common.prog("shared")
     check_module(chk, m, info)
     null_prefix_equiv(chk, m, tier)
+    tag_lookup(chk, m, info)
     chk.assumptions += ["check_badsalt_chars and get_hashfn are the same functions do_crypt uses (checked), their own semantics are covered by C05/C06 rules",
                         "pinned hash selection; other selections are evaluated under C19"]
+
+
+def tag_lookup(chk, m, info):
+    """get_hashfn, interpreted abstractly for every filter-clean setting that begins with no method's tag: nothing may be
+    found (crypt_checksalt then says INVALID).  The two-character traditional-DES tag is the one place where the lookup is
+    code rather than the table: a first or second character outside ./0-9A-Za-z must not select the DES rows."""
+    from .. import xai, crypt_grid as K
+    R = "X-TAG-LOOKUP"
+    chk.rule(R, "get_hashfn finds nothing for a filter-clean setting whose first two characters are not a tag of hashes.conf (one of them outside ./0-9A-Za-z, the first neither '$' nor '_'), and finds a row when both are in the alphabet")
+    F = common.sym(m, "get_hashfn", required=False)
+    if F is None:
+        raise AnalysisBroken("get_hashfn not found")
+    conf = read_hashes_conf()
+    firsts = {c["prefix"].encode()[0] for c in conf if c["prefix"]}
+    des = any(c["prefix"] == "" for c in conf if c["name"] in enabled_names(m))
+    other = K.CLEAN - K.A64
+    cells, expect = [], {}
+
+    def cell(cid, h0, h1, want):
+        reg = {"name": "setting", "kind": "cstr", "bytes": "", "tail": True, "prov": "setting", "tailset": K.set_hex(K.CLEAN | {0}),
+               "headsets": [K.set_hex(h0), K.set_hex(h1)]}
+        cells.append(xai.simple_cell(cid, F.name, [reg], [{"ptr": "setting"}]))
+        expect[cid] = want
+    cell("bad-first", other - firsts, K.CLEAN, "null")
+    cell("bad-second", K.A64 - firsts, other, "null")
+    if des:
+        cell("des-tag", K.A64 - firsts, K.A64, "row")
+    res = xai.run_cells(info["bc"], cells, {"maxPaths": 4000}, jobs=3)
+    for cid, want in sorted(expect.items()):
+        c = res[cid]
+        if c["budget"] or any(a["kind"] in ("MODEL", "BUDGET") for p in c["paths"] for a in p["alarms"]):
+            raise AnalysisBroken("X-TAG-LOOKUP cell %s could not be interpreted completely" % cid)
+        rets = sorted({p["ret"] for p in c["paths"]})
+        if not rets:
+            raise AnalysisBroken("X-TAG-LOOKUP cell %s produced no path" % cid)
+        bad = [r for r in rets if (r != "null") == (want == "null")]
+        if bad:
+            if want == "null":
+                chk.fail(R, cid, "get_hashfn can return a table row (%s) for a setting whose %s character is outside ./0-9A-Za-z and that starts with no method's tag: crypt_checksalt would not answer INVALID for it" % (
+                    bad[0], "first" if cid == "bad-first" else "second"), "lib/crypt.c", {"cell": cid, "rets": rets})
+            else:
+                chk.fail(R, cid, "get_hashfn can return NULL for a setting that starts with two characters of ./0-9A-Za-z although traditional DES is enabled", "lib/crypt.c", {"cell": cid, "rets": rets})
+        else:
+            chk.ok(R, cid, sample={"rets": rets, "paths": len(c["paths"])})
+
+
+def enabled_names(m):
+    """names of the methods compiled in, from the hash table's function symbols"""
+    out = set()
+    for c in read_hashes_conf():
+        if common.sym(m, "crypt_%s_rn" % c["name"], required=False) is not None:
+            out.add(c["name"])
+    return out
 
 
 def null_prefix_equiv(chk, m, tier):
